@@ -93,15 +93,6 @@ Proof.
       * intros x y Hx Hy. apply H; right; assumption.
 Qed.
 
-Lemma nodupE_NoDup l : nodupE l = true <-> NoDup l.
-Proof.
-  induction l as [|x r IH]; cbn [nodupE].
-  - split; [constructor|reflexivity].
-  - rewrite andb_true_iff, negb_true_iff, memE_false, IH. split.
-    + intros [H1 H2]. constructor; assumption.
-    + intros H. inversion H; subst. tauto.
-Qed.
-
 Section CheckerProofs.
   Variable V : list node.
   Variable E : list edge.
